@@ -16,7 +16,9 @@ Case protocol (coq/C16/Model.v run_case, harness/h_c16.cpp):
                                                                        -> |accu| accu t consumed elems..
       8 3 ty d n v.. m w..        accu = ""; xconvert(accu, l1); accu += char(d); xconvert(accu, l2) -> |accu| accu |part1| ok1 m1 e.. ok2 m2 e..
       8 4 ty n v..                accu = "["; xconvert(accu, vec); accu += "]"; string_cast(accu)    -> |accu| accu ok m elems..
-ty: 0 bool 1 char 2 int 3 unsigned 4 long 5 unsigned long 6 long long 7 unsigned long long 8.. enums
+ty: 0 bool 1 char 2 int 3 unsigned 4 long 5 unsigned long 6 long long 7 unsigned long long 8..16 the library's enums
+    17 Level_t 18 Sparse_t 19 Neg_t 20 Off_t 21 Unord_t 22 One_t: enumerations harness/h_c16.cpp declares with the PUBLIC macros
+    (scalars: ops 0 1 6; vectors: ops 4 5; pairs: <E,int>, <int,E>, <E,E>)
 
 The oracle judges the IMPLEMENTATION's observation with python big integers and its own reading of the
 property (it shares nothing with the Coq model): an independent `denote` for numerals, its own parse of the
@@ -39,10 +41,16 @@ RANGE = {INT: (-2 ** 31, 2 ** 31 - 1), UINT: (0, 2 ** 32 - 1), LONG: (-2 ** 63, 
 NUMERIC = [INT, UINT, LONG, ULONG, LLONG, ULLONG]
 TYNAME = {0: 'bool', 1: 'char', 2: 'int', 3: 'unsigned', 4: 'long', 5: 'unsigned long', 6: 'long long', 7: 'unsigned long long',
           8: 'Head_t', 9: 'Body_t', 10: 'Value_t', 11: 'Heuristic_t', 12: 'Directive_t', 13: 'Theory_t', 14: 'Tuple_t',
-          15: 'Clause_t', 16: 'Statistics_t'}
+          15: 'Clause_t', 16: 'Statistics_t', 17: 'Level_t', 18: 'Sparse_t', 19: 'Neg_t', 20: 'Off_t', 21: 'Unord_t', 22: 'One_t'}
 ENUM_HDR = {8: 'potassco/basic_types.h', 9: 'potassco/basic_types.h', 10: 'potassco/basic_types.h', 11: 'potassco/basic_types.h',
             12: 'potassco/basic_types.h', 13: 'potassco/theory_data.h', 14: 'potassco/theory_data.h', 15: 'potassco/clingo.h',
             16: 'potassco/clingo.h'}
+# enumerations declared by the harness with POTASSCO_ENUM_CONSTANTS / POTASSCO_ENUM_CONSTANTS_T in shapes no library enumeration has
+HARNESS_SRC = os.path.join(os.path.dirname(os.path.dirname(os.path.abspath(__file__))), 'harness', 'h_c16.cpp')
+NEW_ENUMS = [17, 18, 19, 20, 21, 22]
+for _t in NEW_ENUMS:
+    ENUM_HDR[_t] = HARNESS_SRC
+ENUM_CODES = list(range(8, 17)) + NEW_ENUMS
 COMP = [0, 1, 2, 3, 6, 7, 10, 14]
 SPACE = b' \t\n\v\f\r'
 BOOL_WORDS = {b'1': 1, b'0': 0, b'no': 0, b'on': 1, b'yes': 1, b'off': 0, b'true': 1, b'false': 0}
@@ -60,10 +68,12 @@ _ENUMS = {}
 
 
 def enum_table(ty):
-    """[(key bytes, value)] in declaration order, (min, max) - parsed from the header, independently of tools/consts."""
+    """[(key bytes, value)] in declaration order, (min, max) - parsed from the declaration, independently of tools/consts, by the
+    rules of C++ (an enumerator without initialiser is the previous one + 1, the first one 0) and of the public macros
+    (POTASSCO_ENUM_CONSTANTS: min = 0; POTASSCO_ENUM_CONSTANTS_T: min = the caller's minVal; max = the last enumerator)."""
     if ty in _ENUMS:
         return _ENUMS[ty]
-    txt = open(os.path.join(REPO, ENUM_HDR[ty]), encoding='latin-1').read()
+    txt = open(os.path.join(REPO, ENUM_HDR[ty]), encoding='latin-1').read()     # (an absolute ENUM_HDR wins: the harness source)
     txt = re.sub(r'/\*.*?\*/', ' ', txt, flags=re.S)
     txt = re.sub(r'//[^\n]*', ' ', txt)
     m = re.search(r'POTASSCO_ENUM_CONSTANTS(_T)?\s*\(\s*' + TYNAME[ty] + r'\s*,(.*?)\)\s*;', txt, re.S)
@@ -73,7 +83,7 @@ def enum_table(ty):
         if m.group(1):
             mn = int(items[1].rstrip('uU'))
             items = items[2:]
-        cur = mn - 1
+        cur = -1
         for it in items:
             if '=' in it:
                 k, v = it.split('=')
@@ -87,7 +97,14 @@ def enum_table(ty):
 
 
 def is_enum(ty):
-    return 8 <= ty <= 16
+    return 8 <= ty <= 22
+
+
+def enum_consts(ty):
+    return [v for _, v in enum_table(ty)[0]]
+
+
+NOT_A_CONSTANT = 'enum:number-that-is-no-constant-accepted'
 
 
 # ------------------------------------------------------------------------------------------------
@@ -195,8 +212,10 @@ def check_scalar_accept(ty, s, val, k):
             d = denote(INT, p)
             if d is None:
                 return ['accept:enum-prefix-is-neither-key-nor-numeral']
-            if d != val or d not in [v for _, v in tab]:
-                return ['accept:enum-number-is-not-a-constant']
+            if d not in [v for _, v in tab]:
+                return [NOT_A_CONSTANT]        # e.g. "0" for Low = 1, Mid = 2, High = 3 (min 0 is a bound, not a constant)
+            if d != val:
+                return ['accept:enum-number-wrong-value']
     elif ty == BOOL:
         if p not in BOOL_WORDS or BOOL_WORDS[p] != val:
             return ['accept:bool-word-wrong-value']
@@ -258,6 +277,14 @@ def elem_value(ty, p):
     if ty == BOOL:
         return BOOL_WORDS.get(p)
     return None
+
+
+def enum_number_no_constant(ty, p):
+    """p is a numeral (or imax / imin) whose number is no constant of the enumeration ty"""
+    if not is_enum(ty) or p in dict(enum_table(ty)[0]):
+        return False
+    d = denote(INT, p)
+    return d is not None and d not in enum_consts(ty)
 
 
 FEW = [0, 2, 7, 10]
@@ -496,9 +523,9 @@ def _oracle(op, c, obs):
                 sig.append('accept:pair-shape')
             else:
                 if elem_value(ta, parts[0]) != a:
-                    sig.append('accept:pair-first-wrong-value')
+                    sig.append(NOT_A_CONSTANT if enum_number_no_constant(ta, parts[0]) else 'accept:pair-first-wrong-value')
                 if sm == 2 and elem_value(tb, parts[1]) != b:
-                    sig.append('accept:pair-second-wrong-value')
+                    sig.append(NOT_A_CONSTANT if enum_number_no_constant(tb, parts[1]) else 'accept:pair-second-wrong-value')
     elif op == 3:
         ta, tb = c[1], c[2]
         a, b = norm(ta, c[3]), norm(tb, c[4])
@@ -530,7 +557,7 @@ def _oracle(op, c, obs):
             if parts is None or len(parts) != t:
                 sig.append('accept:list-shape')
             elif [elem_value(ty, p) for p in parts] != els:
-                sig.append('accept:list-element-wrong-value')
+                sig.append(NOT_A_CONSTANT if any(enum_number_no_constant(ty, p) for p in parts) else 'accept:list-element-wrong-value')
     elif op == 5:
         ty, n0 = c[1], c[2]
         vs = [norm(ty, v) for v in c[3:3 + max(n0, 0)]]
@@ -769,7 +796,7 @@ def gen(seed, tier):
 
     # --- platform / enum meta data, and every enum constant in both directions
     add([6, 0], 'meta')
-    for ty in range(8, 17):
+    for ty in ENUM_CODES:
         add([6, ty], 'meta')
         tab, mn, mx = enum_table(ty)
         for v in range(mn, mx + 2):
@@ -777,6 +804,14 @@ def gen(seed, tier):
         for v in range(mn - 3, mx + 4):
             for f in (b'%d' % v, b' %d' % v, b'0x%x' % abs(v), b'0%o' % abs(v), b'%d,' % v, b'+%d' % abs(v)):
                 add(P(ty, rnd.random() < 0.3, f), 'enum-number')
+            if ty in NEW_ENUMS:
+                # every number from min-3 to max+3 (min-1, min, first constant-1, the constants, every hole, max, max+1) in every
+                # base and sign, zero padded, followed by a separator / a key: aimed at "within the bounds but not in the table"
+                a = abs(v)
+                sg = b'-' if v < 0 else b''
+                for f in (sg + b'0X%X' % a, sg + b'0x%x' % a, sg + b'0%o' % a, sg + b'00%d' % a, b' ' + sg + b'0%d' % a, b'\t%d' % v, b'%d ' % v, b'%d=' % v,
+                          b'%d,' % v + tab[-1][0], b'0x%x,1' % a, b'%dx' % v):
+                    add(P(ty, rnd.random() < 0.3, f), 'enum-number-bounds')
         for k, v in tab:
             for f in (k, k + b',', k + b'=1', k + b' ', k + b'x', k[:-1], k.lower(), k.upper(), b' ' + k, k + k):
                 add(P(ty, rnd.random() < 0.3, f), 'enum-key')
@@ -902,6 +937,39 @@ def gen(seed, tier):
             add([8, 3, ty, rnd.choice([59, 59, 32, 124, 44, 10, 93, 91, 58])] + rlist(ty) + rlist(ty), 'append-second-list')
         else:
             add([8, 4, ty] + rlist(ty), 'append-bracketed')
+    # --- the enumerations declared with the public macros (NEW_ENUMS) as elements of pairs and lists: every number from min-1 to
+    #     max+1 (numeric spellings) next to keys and ints, both directions; a separate random stream, so that the cases above keep their seeds
+    rnd2 = random.Random(seed * 1000003 + 1609)
+    for ty in NEW_ENUMS:
+        tab, mn, mx = enum_table(ty)
+        keys = [k for k, _ in tab]
+        for v in range(mn - 1, mx + 2):
+            a = abs(v)
+            sg = b'-' if v < 0 else b''
+            texts = [b'%d' % v, sg + b'0x%x' % a, rnd2.choice([b' %d' % v, sg + b'0%o' % a, sg + b'00%d' % a, b'+%d' % a if v >= 0 else b' %d' % v])]
+            for t in texts:
+                k = rnd2.choice(keys)
+                e = 1 if rnd2.random() < 0.2 else 0
+                for (ta, tb, s) in ((ty, INT, t + b',5'), (ty, INT, b'(' + t + b',5)'), (INT, ty, b'5,' + t), (INT, ty, b'(5,' + t + b')'),
+                                    (ty, ty, k + b',' + t), (ty, ty, t + b',' + k), (ty, INT, t), (ty, ty, b'(' + t + b')')):
+                    add([2, ta, tb, e, len(s)] + list(s), 'enum-pair-parse')
+                for s in (t, k + b',' + t, b'[' + t + b']', t + b',' + k, b'[' + k + b',' + t + b',' + k + b']', t + b',' + t):
+                    add([4, ty, e, len(s)] + list(s), 'enum-list-parse')
+            w = rnd2.choice([x for _, x in tab])
+            add([3, ty, INT, v, 7], 'enum-pair-print-back')
+            add([3, INT, ty, -7, v], 'enum-pair-print-back')
+            add([3, ty, ty, v, w], 'enum-pair-print-back')
+            add([3, ty, ty, w, v], 'enum-pair-print-back')
+            add([5, ty, 1, v], 'enum-list-print-back')
+            add([5, ty, 3, w, v, w], 'enum-list-print-back')
+        cs = [x for _, x in tab]
+        add([5, ty, len(cs)] + cs, 'enum-list-print-back')
+        add([5, ty, 0], 'list-print-back-empty')
+        for k in keys:
+            for s in (k, k + b',' + k, b'[' + k + b']', k + b',', k + b',x'):
+                add([4, ty, 0, len(s)] + list(s), 'enum-list-parse')
+            for (ta, tb, s) in ((ty, INT, k + b',1'), (INT, ty, b'1,' + k), (ty, ty, k + b',' + keys[0]), (ty, ty, b'(' + keys[-1] + b',' + k + b')')):
+                add([2, ta, tb, 0, len(s)] + list(s), 'enum-pair-parse')
     return out
 
 
@@ -987,11 +1055,13 @@ def mutate(case, rnd):
 
 
 RULE = ('cases = one call group of the conversion API per case: (a) xconvert+string_cast of a byte string for each of bool, char, the six integer '
-        'types (LP64) and nine macro enums; strings = boundary neighbourhoods (+-2) of 0, 2^7..2^65, 10^9..10^20 in decimal/0x/0X/leading-0 octal, signs, '
+        'types (LP64), the nine macro enums of the library and six enumerations the harness declares with the public macros POTASSCO_ENUM_CONSTANTS / _T in shapes the library has not '
+        '(Level_t Low=1..High=3 with min 0; Sparse_t with holes; Neg_t / Off_t with a negative / positive minVal that is no constant; Unord_t not increasing with an alias; One_t a single constant) - '
+        'for every enum every number from min-3 to max+3 (min-1, min, first constant-1, constants, every hole, max+1) in decimal/0x/0X/octal, signed, zero padded, with leading white space, followed by separators / keys, and every key with its near misses; strings = boundary neighbourhoods (+-2) of 0, 2^7..2^65, 10^9..10^20 in decimal/0x/0X/leading-0 octal, signs, '
         'leading white space, trailing characters, zero padding, 17..100 digit runs, keywords imax/imin/umax/-1 and their prefixes, random strings over a '
         'numeral alphabet, each with errno clean and with stale errno=ERANGE; (b) toString then stringTo of boundary/power-of-10/random values of every '
         'integer type, every bool, all 256 chars, every enum constant; (c) pairs and vectors over {bool,char,int,unsigned,long long,unsigned long long,Value_t,Tuple_t} '
-        'in both directions incl. the empty vector; (c2) lists written into NON-EMPTY accumulators: toString(a, list), toString(a, b, list), the iterator-range writer with default and custom separators appended to arbitrary prefixes, '
+        'in both directions incl. the empty vector, plus vectors of each harness enum and pairs <E,int> <int,E> <E,E> whose enum component is every number from min-1 to max+1 in several spellings next to keys; (c2) lists written into NON-EMPTY accumulators: toString(a, list), toString(a, b, list), the iterator-range writer with default and custom separators appended to arbitrary prefixes, '
         'a second list behind a delimiter, the bracketed form - empty, one-element and longer lists of every element type in each position, read back through the real parsers; (d) implementation-side sweeps of the value round trip (thorough tier: all 2^32 values of int and of unsigned). '
         'non-trivial = a print/back or sweep case, an accepted parse, or a string of >= 2 bytes; distinct = distinct case tuples')
 TRUSTED_BASE = ['strtoll/strtoull modelled per ISO C 7.22.1.4 ("C" locale, unbounded accumulator, clamp + ERANGE, strtoull negates modulo 2^64); validated against glibc by the correspondence run on every generated string',
@@ -1004,7 +1074,10 @@ ASSUMPTIONS = ['strings are NUL-terminated byte strings in the "C" locale; char 
 LEVEL_TEXT = ('Machine-checked proofs (Coq) about an executable model of detectBase/parseSigned/parseUnsigned/xconvert/EnumClass/convert_seq/string_cast and the printers: '
               'round trip parse(print v) = v for ALL values of int, unsigned, long, unsigned long, long long, unsigned long long (LP64, extremes and the printed word umax included, '
               'for clean and stale errno, also when followed by a separator), bool, char (NUL refuted); accepts-only: an accepted text denotes exactly the returned value in its detected base '
-              'or keyword for digit runs of any length, value within range, end position inside the string, string_cast accepts iff nothing is left; finite sweep over all generated enum tables; '
+              'or keyword for digit runs of any length, value within range, end position inside the string, string_cast accepts iff nothing is left; finite sweep over all generated enum tables (the library\'s nine and the harness\'s six); '
+              'enumerations for EVERY descriptor (stringified arguments, min, max; min is a bound, not necessarily a constant): isValid = within the bounds AND in the table (c16_enum_valid_iff), a text the int conversion accepts is accepted '
+              'for the enumeration iff its number is a constant, with the same value and end position (c16_enum_number_accepted_iff, _wf), every constant of every well-formed descriptor reads back from its key (alone, as a prefix, in front of a separator) '
+              'and from its decimal numeral (c16_enum_roundtrip_every_descriptor; hypotheses shown necessary by examples); '
               'pairs and non-empty lists round-trip for ALL element types of the model (integers, bool, char, every constant of the nine enumerations) with exactly the exclusions char NUL, char "(" as first component of a pair, '
               'char "[" as first element of a list (each exclusion proved necessary for every value of that shape, not only by a witness); accepts-only for every scalar type, pairs and lists on arbitrary strings: '
               'the input decomposes into optional brackets, element texts and separators, every delivered element is the denotation of its own text and lies in the range of its type, the end position lies inside the string. '
